@@ -337,7 +337,9 @@ fn compile_op(name: &str, srcs: &[String], check: bool) -> String {
     std::fs::create_dir_all(&out_dir).unwrap();
     let mut paths = Vec::new();
     for (i, t) in srcs.iter().enumerate() {
-        let p = src_dir.join(format!("s{i}.json"));
+        // file names sort in the REVERSE of the order in which the paths are given: the output must depend on
+        // the order of the list, not on the names
+        let p = src_dir.join(format!("s{:03}_{i}.json", 999 - i));
         std::fs::write(&p, t).unwrap();
         paths.push(p);
     }
@@ -444,7 +446,7 @@ fn build_history(mode: &str, steps: &[&str]) -> String {
                     files.push((src_dir.join(format!("missing_{i}_{j}")), None));
                 } else {
                     let Some(t) = unhex_str(h) else { return "bad-op".into() };
-                    files.push((src_dir.join(format!("s{i}_{j}.json")), Some(t)));
+                    files.push((src_dir.join(format!("s{i}_{:03}_{j}.json", 999 - j)), Some(t)));
                 }
             }
         }
